@@ -170,7 +170,7 @@ class Main(Part):
 
     def budget(self, tier):
         return {"quick": dict(examples=350, shards=6, seconds=80),
-                "thorough": dict(examples=3000, shards=16, seconds=900)}[tier]
+                "thorough": dict(examples=3000, shards=16, seconds=600)}[tier]
 
     def strategy(self, tier):
         @st.composite
@@ -235,7 +235,7 @@ class Observable(Part):
 
     def budget(self, tier):
         return {"quick": dict(examples=250, shards=5, seconds=80),
-                "thorough": dict(examples=2500, shards=16, seconds=900)}[tier]
+                "thorough": dict(examples=2500, shards=16, seconds=600)}[tier]
 
     def strategy(self, tier):
         @st.composite
@@ -289,7 +289,7 @@ class GeneratedMetrics(Part):
 
     def budget(self, tier):
         return {"quick": dict(examples=150, shards=3, seconds=80),
-                "thorough": dict(examples=2000, shards=8, seconds=900)}[tier]
+                "thorough": dict(examples=2000, shards=8, seconds=600)}[tier]
 
     def strategy(self, tier):
         from .. import gen_metrics
